@@ -56,6 +56,30 @@ CHECKS = {
         note="I/O failures and torn writes are not modelled. Keyspace-list oracle allows empty keyspaces to be listed or not.",
         design="DESIGN.md section 3, C17",
     ),
+    "C02": dict(
+        category="model_checking",
+        engine="E1 by replay, Layer B single node",
+        technique="explicit-state BFS by history replay on the real keyspace actor with a fault-injecting storage wrapper; state = (decoded Serialize reply, store rows); agreement oracle after every request",
+        text="Requests Set/Del/MultiSet (incl. the same id twice, both stamp orders)/MultiDel/PurgeDeletes with stamps from a grid with >1h gaps, two origins, both sources, any arrival order, and per storage call the answers ok / fail-before / fail-after-k (exactly the written ids reported) are sent to the real actor through its mailbox. After every request, successful or failed, live ids+stamps of the set must equal the store's documents, tombstones must equal the store's tombstones, and stored bytes must belong to the write whose stamp the row carries. Depth 3 on a harness map store and depth 2 on MemStore (quick), depth 4/3 (thorough).",
+        note="Bulk calls with a duplicated id are not combined with partial storage failure (contract ambiguity). Single-document storage calls fail atomically.",
+        design="DESIGN.md section 3, C02",
+    ),
+    "C18": dict(
+        category="model_checking",
+        engine="E2, Layer B single node",
+        technique="stateless schedule exploration of all await-point interleavings of k concurrent first users of a fresh keyspace on a real node (four real entry paths), re-execution from choice prefixes",
+        text="k=2 tasks (all 9 combinations of entry paths: group lookup + Set, public put, incoming ConsistencyService RPC, incoming GetState RPC) over ALL interleavings, k=3 up to 2 (quick) / 4 (thorough) deviations. After each execution the set returned by a new lookup must contain every acknowledged id and storage must hold exactly the acknowledged writes.",
+        note="Await-point granularity on a current-thread runtime; the property's window lies across awaits.",
+        design="DESIGN.md section 3, C18",
+    ),
+    "C19": dict(
+        category="exploration",
+        engine="E4 + E1 by replay, Layer B",
+        technique="bounded exhaustive enumeration of sender states (generator states, size grid covering every frame-length residue, origin/source families, 1k-20k entries) transferred through the real ReplicationService/ReplicationClient, plus BFS by replay over sender histories with a peer fetching after every request",
+        text="Static: ~1 700 (quick) / ~4 000 (thorough) distinct sender states are installed with add_state and fetched with the real get_state RPC; the received set must equal the sender's full snapshot (live, tombstones, per-source stamps, cut-offs) and decide a probe grid of will_apply/insert/delete identically. Dynamic: histories of sets, deletes and purges to depth 4/5 on a real node; after every request the state a peer obtains must equal the sender's Serialize reply at that moment.",
+        note="In-process transport (single-chunk reply). Debug assertions on: misaligned/out-of-bounds decoding panics instead of being UB.",
+        design="DESIGN.md section 3, C19",
+    ),
     "C03": dict(
         category="model_checking",
         engine="E1 Layer A",
